@@ -1,4 +1,5 @@
-// ---- lemmas (bodies verified) ------------------------------------------------------------------------
+// ---- lemmas about Seq::filter (bodies verified; same text as units/c10_remove2/lemmas.rs, which cannot be included here because it
+// also mentions types of the other indexes) ------------------------------------------------------------------------------------------
 pub proof fn lemma_filter_by_is_filter<T>(s: Seq<T>, keep: Seq<bool>, p: spec_fn(T) -> bool)
     requires keep.len() == s.len(), forall|i: int| 0 <= i < s.len() ==> #[trigger] keep[i] == p(s[i]),
     ensures filter_by(s, keep) == s.filter(p),
@@ -10,15 +11,6 @@ pub proof fn lemma_filter_by_is_filter<T>(s: Seq<T>, keep: Seq<bool>, p: spec_fn
     }
 }
 
-pub proof fn lemma_filter_ext<T>(s: Seq<T>, p: spec_fn(T) -> bool, q: spec_fn(T) -> bool)
-    requires forall|i: int| 0 <= i < s.len() ==> p(#[trigger] s[i]) == q(s[i]),
-    ensures s.filter(p) == s.filter(q),
-    decreases s.len()
-{
-    reveal(Seq::filter);
-    if s.len() > 0 { lemma_filter_ext(s.drop_last(), p, q); }
-}
-pub open spec fn and_pred<T>(p: spec_fn(T) -> bool, q: spec_fn(T) -> bool) -> spec_fn(T) -> bool { |x: T| p(x) && q(x) }
 pub proof fn lemma_filter_all<T>(s: Seq<T>, p: spec_fn(T) -> bool)
     requires forall|i: int| 0 <= i < s.len() ==> p(#[trigger] s[i]),
     ensures s.filter(p) == s,
@@ -34,17 +26,3 @@ pub proof fn lemma_filter_len<T>(s: Seq<T>, p: spec_fn(T) -> bool)
     reveal(Seq::filter);
     if s.len() > 0 { lemma_filter_len(s.drop_last(), p); }
 }
-pub proof fn lemma_filter_filter<T>(s: Seq<T>, p: spec_fn(T) -> bool, q: spec_fn(T) -> bool)
-    ensures s.filter(p).filter(q) == s.filter(and_pred(p, q)),
-    decreases s.len()
-{
-    reveal(Seq::filter);
-    if s.len() > 0 {
-        lemma_filter_filter(s.drop_last(), p, q);
-        let r = s.drop_last().filter(p);
-        if p(s.last()) {
-            assert(r.push(s.last()).drop_last() == r);
-        }
-    }
-}
-
